@@ -412,6 +412,9 @@ func quoteFlow(c *Ctx, fn *ssa.Function, depth int) (at map[ssa.Instruction]int,
 // return, evaluating branch conditions that compare the subject byte
 // (recognised by isSubject) with constants for the concrete value b;
 // other conditions branch both ways. Returns the event (call) sequences.
+// curByteEval evaluates a value for the input byte under exploration (set while byteEvents calls an event function).
+var curByteEval func(ssa.Value) (int64, bool)
+
 func byteEvents(from *ssa.BasicBlock, stop func(*ssa.BasicBlock) bool, isSubject func(ssa.Value) bool, b byte, event func(ssa.Instruction) string) [][]string {
 	var out [][]string
 	type frame struct {
@@ -480,6 +483,18 @@ func byteEvents(from *ssa.BasicBlock, stop func(*ssa.BasicBlock) bool, isSubject
 		case *ssa.ChangeType:
 			return eval(x.X, subj, e, d+1)
 		case *ssa.UnOp:
+			if x.Op == token.MUL {
+				// an element of a constant package-level table, indexed by an evident value
+				if ia, ok := x.X.(*ssa.IndexAddr); ok {
+					if g, ok := ia.X.(*ssa.Global); ok {
+						if k, ok := eval(ia.Index, subj, e, d+1); ok {
+							if n, ok := ConstTableInt(g, k); ok {
+								return n, true
+							}
+						}
+					}
+				}
+			}
 			if x.Op == token.NOT {
 				if k, ok := eval(x.X, subj, e, d+1); ok {
 					return 1 - k, true
@@ -581,9 +596,11 @@ func byteEvents(from *ssa.BasicBlock, stop func(*ssa.BasicBlock) bool, isSubject
 		}
 		for k := idx; k < len(blk.Instrs); k++ {
 			in := blk.Instrs[k]
+			curByteEval = func(v ssa.Value) (int64, bool) { return eval(v, subj, e, 0) }
 			if e := event(in); e != "" {
 				ev = append(append([]string{}, ev...), e)
 			}
+			curByteEval = nil
 			switch x := in.(type) {
 			case *ssa.Call:
 				// an eligible helper is explored as if inlined; the subject byte and
@@ -717,6 +734,12 @@ func c1Escaper(c *Ctx, rule string) {
 			if b, ok := constBytes(a[1]); ok {
 				return f.Name() + "(" + string(b) + ")"
 			}
+			// a byte that is evident for this input byte (e.g. looked up in a constant escape table)
+			if curByteEval != nil && (f.Name() == "AppendByte" || f.Name() == "WriteByte") && !strings.Contains(d1, `"0123456789abcdef"`) {
+				if k, ok := curByteEval(a[1]); ok && k >= 0x20 && k < 0x7f {
+					return f.Name() + "(" + string(rune(k)) + ")"
+				}
+			}
 			return f.Name() + "(" + d1 + ")"
 		}
 		return ""
@@ -733,7 +756,7 @@ func c1Escaper(c *Ctx, rule string) {
 	want := func(b byte) [][]string {
 		switch {
 		case b == '"' || b == '\\':
-			return [][]string{{flush, "AppendByte(\\)", "AppendByte(" + sub + ")"}}
+			return [][]string{{flush, "AppendByte(\\)", "AppendByte(" + string(rune(b)) + ")"}}
 		case b == '\n':
 			return [][]string{{flush, "AppendByte(\\)", "AppendByte(n)"}}
 		case b == '\r':
